@@ -235,8 +235,11 @@ where
                     self.deferred_index_dump_info = None;
                 } else {
                     // The dump procedure is already running, but this does not guarantee that the dump for the desired blob will be made in it. 
-                    // Therefore, we defer the dump procedure once more
-                    self.deferred_index_dump_info = Some(Box::new(DeferredEventData::new()));
+                    // Therefore, we defer the dump procedure once more (with a deadline of its own: the one that
+                    // brought us here is spent, and without another event nothing would look at the request again)
+                    let deferred = DeferredEventData::new();
+                    self.update_deadline(deferred.next_deadline(min, max));
+                    self.deferred_index_dump_info = Some(Box::new(deferred));
                 }
             } else {
                 let next_deadline = deferred.next_deadline(min, max);
